@@ -203,6 +203,33 @@ theorem code_matches_model :
       "if err := proc.OnSvcConfigUpdate(newCfg); err != nil { logger.Warnf(\"failed to update svc config: %v\", err) }"] := by
   refine ⟨rfl, rfl, rfl, rfl, rfl, rfl, rfl, rfl, rfl, rfl, rfl, rfl, rfl⟩
 
+/-- **The code the model was written against.** The statements of the modelled functions,
+regenerated from the current source on every run, are the ones the model was written against;
+any edit to one of them makes this obligation fail and starts a search for a failing input. -/
+theorem proc_config_update_matches_model :
+    Gen.Conf.tcpOnSvcConfigUpdate =
+      ["if newHC := c.GetHealthCheck(); !p.cfg.GetHealthCheck().Equal(newHC) { var err error if p.hm == nil { p.hm, err = hc.NewMonitor(newHC, p.hostSet, p.Logger) if err == nil { p.hm.Start() } } else if newHC == nil { p.hm.Stop() p.hm = nil for _, h := range p.hostSet.All() { p.hostSet.MarkHostHealthy(h) } } else { err = p.hm.ResetHealthCheck(newHC) } if err != nil { return err } }",
+      "if newPolicy := c.GetLbPolicy(); p.cfg.GetLbPolicy() != newPolicy { p.lb = lb.New(newPolicy) }",
+      "if !p.cfg.Equal(c) { p.cfg = c }",
+      "return nil"] ∧
+    Gen.Conf.resetHealthCheck =
+      ["if m == nil { return nil }",
+      "if err := config.Validate(); err != nil { return err }",
+      "if !config.Checker.Equal(m.config.Checker) { checker, err := newChecker(config) if err != nil { m.checker = tcp.NewChecker() return err } m.checker = checker }",
+      "m.config = config",
+      "m.strategyUpdateCh <- struct{}{}",
+      "return nil"] ∧
+    Gen.Conf.newMonitor =
+      ["if logger == nil { logger = loggerpkg.Get() }",
+      "if config == nil { logger.Infof(\"health check config is null, healthy check will be disabled\") return nil, nil }",
+      "if err := config.Validate(); err != nil { logger.Infof(\"invalid health check config: %v, will use default\", err) config = defaultConfig }",
+      "checker, err := newChecker(config)",
+      "if err != nil { return nil, err }",
+      "ctx, cancel := context.WithCancel(context.Background())",
+      "m := &Monitor{ logger: logger, ctx: ctx, cancel: cancel, done: make(chan struct{}), config: config, strategyUpdateCh: make(chan struct{}, 1), checker: checker, hostSet: hostSet, }",
+      "return m, nil"] := by
+  refine ⟨rfl, rfl, rfl⟩
+
 end SamVerif.Props.C08
 
 #print axioms SamVerif.Props.C08.inv_run
@@ -212,3 +239,4 @@ end SamVerif.Props.C08
 #print axioms SamVerif.Props.C08.latest_invalid_counterexample
 #print axioms SamVerif.Props.C08.old_order_counterexample
 #print axioms SamVerif.Props.C08.code_matches_model
+#print axioms SamVerif.Props.C08.proc_config_update_matches_model
